@@ -23,14 +23,19 @@ def run(res, only=None):
                   "r2:manhattan_distance", "x:cross", "f:sum", "f:product", "u:not", "m:" + ("saturating_add_unsigned" if t[0] == "i" else "saturating_add_signed")):
             expect.append(f"{t}:{k}")
     core.replay_bin(res, "int", cases, cfgs, expect_ops=expect)
+    # code -> spec: random operands of every width, logged by `rec int` in both profiles and judged by TLC (Trace_Lanes / IntLane)
+    core.record_and_validate(res, "int", cfgs, draws=2 if res.tier == "quick" else 40, chunks=2 if res.tier == "quick" else 6,
+                             expect_kinds=("i1", "i2", "i3", "im", "is", "ir1", "ir2"))
     res.exhaustive = res.tier == "thorough"
     res.rule = ("operand pairs: all 256x256 for the 8-bit types in the thorough tier (boundary lattice + 24 seeded values in quick); "
                 "boundary lattice (MIN, MIN+1, -2^(w/2)+-1, small, 2^(w/2)+-1, 2^(w-2), MAX-1, MAX) for 16/32/64-bit; "
                 "shift counts 0,1,w-1,w,w+1,2w,-1,... through every count type; each case in 4 lane rotations on the 2-, 3- and "
-                "4-lane type (usize with u64); debug (overflow-checking) and release profiles. Every case counts as non-trivial.")
+                "4-lane type (usize with u64); debug (overflow-checking) and release profiles. Every case counts as non-trivial.  Code -> spec: "
+                "every operation on random operands (uniform, near MIN/MAX, 2^k+-1, half-width factors, quotients of the extremes) recorded "
+                "per type and profile and judged by TLC with IntLane on arbitrary-precision integers (Trace_Lanes.tla).")
     res.assumptions = ["usize is 64 bit on this target", "exhaustive 16-bit pairs are not enumerated (boundary lattice instead)",
                        "spec/Big.tla limb arithmetic is validated against TLC native integers by MC_Big and against the Rust primitives lane by lane"]
 
 
 def replay(res, path, only=None):
-    return core.generic_replay(res, path, "int")
+    return core.replay_dispatch(res, path, "int")
